@@ -1356,17 +1356,17 @@ class Fxp():
     # math operations
     
     def __neg__(self):
-        y = Fxp(-self.val, signed=self.signed, n_word=self.n_word, n_frac=self.n_frac, raw=True)
+        y = Fxp(-self.val, signed=self.signed, n_word=self.n_word, n_frac=self.n_frac, raw=True, config=self.config)
         if self.status['inaccuracy']: y.status['inaccuracy'] = True     # propagate inaccuracy from the operand
         return y
 
     def __pos__(self):
-        y = Fxp(+self.val, signed=self.signed, n_word=self.n_word, n_frac=self.n_frac, raw=True)
+        y = Fxp(+self.val, signed=self.signed, n_word=self.n_word, n_frac=self.n_frac, raw=True, config=self.config)
         if self.status['inaccuracy']: y.status['inaccuracy'] = True
         return y
 
     def __abs__(self):
-        y = Fxp(abs(self.val), signed=self.signed, n_word=self.n_word, n_frac=self.n_frac, raw=True)
+        y = Fxp(abs(self.val), signed=self.signed, n_word=self.n_word, n_frac=self.n_frac, raw=True, config=self.config)
         if self.status['inaccuracy']: y.status['inaccuracy'] = True
         return y          
 
